@@ -462,11 +462,11 @@ func (x *Exec) load(st *State, addr *Term, typ types.Type) *Term {
 			return c.val
 		}
 	}
+	if ep, ok := epochOf(st, addr); ok {
+		// the object was handed to an opaque callee: unknown content
+		return mk("init", "", typ, addr, ep)
+	}
 	if r.Op == "alloc" {
-		if ep, ok := st.mem["epoch:"+r.key]; ok {
-			// the object was handed to an opaque callee: unknown content
-			return mk("init", "", typ, addr, ep.val)
-		}
 		if typ != nil {
 			return zeroOf(typ)
 		}
@@ -497,18 +497,42 @@ func (x *Exec) store(st *State, addr, val *Term, typ types.Type) {
 }
 
 // havoc forgets everything known about the object behind a pointer that is
-// passed to a callee the simulator does not look into.
+// passed to a callee the simulator does not look into: cells at or below the
+// pointer are dropped and later loads from there yield terms tagged with the
+// call site (an epoch), so values read before and after the call differ.
 func (x *Exec) havoc(st *State, ptr *Term, site *Term) {
-	r := rootOf(ptr)
-	if r.Op != "alloc" {
-		return
-	}
 	for k, c := range st.mem {
-		if c.addr != nil && c.val != nil && c.val.Op != "mapabs" && !strings.HasPrefix(k, "epoch:") && rootOf(c.addr) == r {
+		if c.addr != nil && c.val != nil && c.val.Op != "mapabs" && !strings.HasPrefix(k, "epoch:") && addrUnder(c.addr, ptr) {
 			delete(st.mem, k)
 		}
 	}
-	st.mem["epoch:"+r.key] = cell{r, site}
+	st.mem["epoch:"+ptr.key] = cell{ptr, site}
+}
+
+// addrUnder: addr is ptr or a field/element address below it.
+func addrUnder(addr, ptr *Term) bool {
+	for {
+		if addr == ptr {
+			return true
+		}
+		if addr.Op != "field" && addr.Op != "index" {
+			return false
+		}
+		addr = addr.Args[0]
+	}
+}
+
+// epochOf returns the call site that last havocked the object holding addr.
+func epochOf(st *State, addr *Term) (*Term, bool) {
+	for {
+		if ep, ok := st.mem["epoch:"+addr.key]; ok {
+			return ep.val, true
+		}
+		if addr.Op != "field" && addr.Op != "index" {
+			return nil, false
+		}
+		addr = addr.Args[0]
+	}
 }
 
 // ---------------------------------------------------------------------------
